@@ -37,6 +37,18 @@ type Case struct {
 	Endpoints bool `json:"endpoints,omitempty"`
 }
 
+// spare copies a list into a slice with unused capacity, as lists grown by
+// append (e.g. the result of an earlier merge) have: a merge that appends in
+// place would then write into storage shared with its input.
+func spare(list []string) []string {
+	if list == nil {
+		return nil
+	}
+	out := make([]string, len(list), len(list)+4)
+	copy(out, list)
+	return out
+}
+
 func (c Conf) real() *synchronization.Configuration {
 	return &synchronization.Configuration{
 		SynchronizationMode:    core.SynchronizationMode(c.SyncMode),
@@ -50,8 +62,8 @@ func (c Conf) real() *synchronization.Configuration {
 		WatchMode:              synchronization.WatchMode(c.Watch),
 		WatchPollingInterval:   c.Poll,
 		IgnoreSyntax:           ignore.Syntax(c.Syntax),
-		DefaultIgnores:         append([]string(nil), c.DefaultIgnores...),
-		Ignores:                append([]string(nil), c.Ignores...),
+		DefaultIgnores:         spare(c.DefaultIgnores),
+		Ignores:                spare(c.Ignores),
 		IgnoreVCSMode:          ignore.IgnoreVCSMode(c.VCS),
 		PermissionsMode:        core.PermissionsMode(c.Perm),
 		DefaultFileMode:        c.FileMode,
@@ -130,6 +142,15 @@ func judge(c *Case) (v Verdict) {
 		v.Classes = append(v.Classes, "refused-by-session-validation-only")
 	}
 	v.Accepted = ok
+	// The same session-wide configuration is merged with both endpoint
+	// configurations (as session creation and the project commands do); the
+	// first result must still be what it was once the second exists.
+	firstMerged := synchronization.MergeConfigurations(session, alpha)
+	synchronization.MergeConfigurations(session, beta)
+	if got, want := describe(firstMerged), modelMerge(c.Session, c.Alpha); !sameConf(got, want) {
+		v.Violation = fmt.Sprintf("alpha: the merged configuration became %+v after the same session-wide configuration was merged with the beta configuration; specified %+v", got, want)
+		return
+	}
 	for _, side := range []struct {
 		name     string
 		specific *synchronization.Configuration
